@@ -136,3 +136,26 @@ META = {
                      'contracts of pymbolic __sub__/__neg__/__mul__'],
     'assumptions': ['integer operands (val_Z)', 'termination not proved'],
 }
+
+
+def bounded_checks(tier, seed):
+    """native cross-check (bounded/C09_native.py): symbolic_op on 35 x 35 small polynomials x 4 order comparisons against an
+    integer grid; exercises the real simplify body that the deductive contract only uses through its C08 contract.
+    Bounded, never counted as proved."""
+    import json
+    import os
+    import subprocess
+    root = os.path.dirname(os.path.dirname(os.path.abspath(__file__)))
+    repo = os.environ.get('LOKI_REPO', '/repo')
+    p = subprocess.run([os.environ.get('LOKI_PYTHON', '/venv/bin/python'), os.path.join(root, 'bounded', 'C09_native.py')],
+                       capture_output=True, text=True, timeout=1800, env=dict(os.environ, PYTHONPATH=repo), cwd=repo)
+    line = next((l for l in reversed(p.stdout.splitlines()) if l.startswith('{')), None)
+    rule = ('every ordered pair of 35 integer polynomials over a, b, c (constructor-built and operator-built, n-ary products '
+            'with up to three sign-carrying factors) x {lt, le, gt, ge}: a definite answer of symbolic_op agrees with the '
+            'comparison at all 216 points of the grid {-3,-1,0,1,2,4}^3; TypeError (cannot decide) always allowed')
+    if line is None:
+        return [{'name': 'bounded/symbolic_op', 'cases': 0, 'violation': False, 'error': p.stderr[-600:], 'rule': rule}]
+    d = json.loads(line)
+    return [{'name': 'bounded/symbolic_op', 'cases': d['cases'], 'distinct': d['cases'], 'rule': rule,
+             'bound': '35 polynomials, grid of 216 points', 'violation': bool(d['violation']), 'cex': d.get('cex'),
+             'n_violations': d.get('n_violations', 0)}]
